@@ -805,22 +805,30 @@ Proof.
   rewrite app_length, Nat2Z.inj_add, L1, map_length, L2. cbn [map fst zsum fold_right]. reflexivity.
 Qed.
 
+(* what the generated `needed = ...` of the joins evaluates to *)
+Definition jneeded (total plen : Z) : Z := Z.max total (plen - 1).
+Lemma gcxs_join_needed_eq total plen : gcxs_join_needed total plen = Ok (jneeded total plen).
+Proof.
+  unfold gcxs_join_needed, g_gcxs_join_needed, jneeded. cbn [bind py_sub arith as_int py_max2].
+  destruct (Z.ltb_spec total (plen - 1)); cbn [bind]; f_equal; lia.
+Qed.
+
 (* the join in the type t: which dtype comes out, that it holds max(total nnz, joined row count),
    and that the spliced index pointer is the reference one *)
 Lemma gcxs_join_shape t ptrs :
   std t -> Forall ptr_ok ptrs ->
-  s_gcxs_join_needed (zsum (map snd ptrs)) (joined_len ptrs) < 2 ^ 64 ->
+  jneeded (zsum (map snd ptrs)) (joined_len ptrs) < 2 ^ 64 ->
   exists t' vals,
     m_gcxs_join (DInt t) ptrs = Ok (mkT (DInt t') vals) /\ std t' /\
-    fits (DInt t') (s_gcxs_join_needed (zsum (map snd ptrs)) (joined_len ptrs)) = true /\
+    fits (DInt t') (jneeded (zsum (map snd ptrs)) (joined_len ptrs)) = true /\
     m_gcxs_join DInf ptrs = Ok (mkT DInf vals) /\ Z.of_nat (length vals) = joined_len ptrs.
 Proof.
-  intros St Hok Hlt. unfold m_gcxs_join.
+  intros St Hok Hlt. unfold m_gcxs_join. rewrite !gcxs_join_needed_eq. cbn [bind].
   set (total := zsum (map snd ptrs)) in *.
-  set (needed := s_gcxs_join_needed total (joined_len ptrs)) in *.
+  set (needed := jneeded total (joined_len ptrs)) in *.
   assert (Hnn : 0 <= total).
   { apply zsum_nonneg. rewrite Forall_map. eapply Forall_impl; [|exact Hok]. intros [a b] [H1 _]. exact H1. }
-  assert (Hge : total <= needed) by (unfold needed, s_gcxs_join_needed; lia).
+  assert (Hge : total <= needed) by (unfold needed, jneeded; lia).
   assert (D : exists t', gcxs_join_dtype (DInt t) needed = Ok (DInt t') /\ std t' /\ fits (DInt t') needed = true).
   { unfold gcxs_join_dtype. destruct (can_store (DInt t) needed) eqn:E; cbn [negb]; [exists t; auto|].
     destruct (ext_min_scalar_type_nonneg needed ltac:(lia)) as [t' [E' [S' F']]].
@@ -848,7 +856,7 @@ Qed.
 
 Theorem width_irrelevant_gcxs_join_proof t ptrs :
   std t -> Forall ptr_ok ptrs ->
-  s_gcxs_join_needed (zsum (map snd ptrs)) (joined_len ptrs) < 2 ^ 64 ->
+  jneeded (zsum (map snd ptrs)) (joined_len ptrs) < 2 ^ 64 ->
   rmap tv (m_gcxs_join (DInt t) ptrs) = rmap tv (m_gcxs_join DInf ptrs).
 Proof.
   intros St Hok Hlt. destruct (gcxs_join_shape t ptrs St Hok Hlt) as [t' [vals [E1 [_ [_ [E2 _]]]]]].
@@ -898,7 +906,7 @@ Qed.
 (* after a join the row numbers always fit: full statement *)
 Theorem gcxs_join_uncompress_proof t ptrs a :
   std t -> Forall ptr_ok ptrs ->
-  s_gcxs_join_needed (zsum (map snd ptrs)) (joined_len ptrs) < 2 ^ 64 ->
+  jneeded (zsum (map snd ptrs)) (joined_len ptrs) < 2 ^ 64 ->
   m_gcxs_join (DInt t) ptrs = Ok a ->
   tv (m_uncompress (tdt a) (tv a)) = tv (m_uncompress DInf (tv a)).
 Proof.
@@ -910,8 +918,8 @@ Proof.
   unfold uncompress_clause. rewrite L.
   pose proof (std_pos t' S') as Hb.
   cbn [length] in L. rewrite Nat2Z.inj_succ in L.
-  apply (fits_le t' (s_gcxs_join_needed (zsum (map snd ptrs)) (joined_len ptrs))); [exact Hb|exact F'|].
-  unfold s_gcxs_join_needed. lia.
+  apply (fits_le t' (jneeded (zsum (map snd ptrs)) (joined_len ptrs))); [exact Hb|exact F'|].
+  unfold jneeded. lia.
 Qed.
 
 Theorem uncompress_refuted_proof :
@@ -1164,3 +1172,36 @@ Example dot_indptr_nonvacuous :
   tv (m_dot_indptr (DInt u8) 3 (repeat 0 (Z.to_nat 100) ++ repeat 1 (Z.to_nat 100) ++ repeat 2 (Z.to_nat 100)))
   = [0; 100; 200; 300].
 Proof. vm_compute. reflexivity. Qed.
+
+(* ------------------------------------------------------------------ _diagonal_idx: the Numba comparison is exact for
+   every index type (coordinate + int64 offset is an int64 under Numba's promotion, never an unsigned difference) *)
+Lemma nb_sum_exact t offset x :
+  std t -> 0 <= x < 2 ^ 62 -> - 2 ^ 62 <= offset <= 2 ^ 62 ->
+  wr (nb_promote_d (DInt t) i64) (x + offset) = x + offset.
+Proof.
+  intros St Hx Ho. unfold nb_promote_d, nb_promote. cbn [sg bits i64].
+  destruct (sg t); cbn [Bool.eqb].
+  - unfold std in St. replace (Z.max (Z.max (bits t) 64) 64) with 64 by lia. apply wr_i64. lia.
+  - apply wr_i64. lia.
+Qed.
+
+Theorem diagonal_test_exact_proof t n1 a1 a2 offset :
+  std t -> coords_in n1 a1 -> n1 < 2 ^ 62 -> - 2 ^ 62 <= offset <= 2 ^ 62 ->
+  m_diagonal_mask (DInt t) a1 a2 offset = map (fun p => fst p + offset =? snd p) (combine a1 a2) /\
+  m_diagonal_mask (DInt t) a1 a2 offset = m_diagonal_mask DInf a1 a2 offset.
+Proof.
+  intros St H1 Hn Ho.
+  assert (E : forall d, (d = DInf \/ d = DInt t) ->
+            m_diagonal_mask d a1 a2 offset = map (fun p => fst p + offset =? snd p) (combine a1 a2)).
+  { intros d Hd. unfold m_diagonal_mask, s_diagonal_mask, nb_arr_sc, cmp_arr. cbn [tdt tv].
+    revert a2. induction H1 as [|x r Hx Hr IH]; intros a2; [reflexivity|].
+    destruct a2 as [|y a2]; [reflexivity|]. cbn [map combine fst snd]. rewrite IH. f_equal. f_equal.
+    destruct Hd as [->| ->]; [reflexivity|]. apply nb_sum_exact; [exact St|lia|exact Ho]. }
+  split; [apply E; right; reflexivity|].
+  rewrite (E (DInt t)) by (right; reflexivity). rewrite (E DInf) by (left; reflexivity). reflexivity.
+Qed.
+
+Example diagonal_test_nonvacuous :
+  m_diagonal_mask (DInt u8) [3; 5; 200] [1; 5; 198] (-2) = [true; false; true] /\
+  m_diagonal_mask (DInt u64) [3; 5] [1; 5] (-2) = [true; false].
+Proof. split; reflexivity. Qed.
